@@ -816,6 +816,7 @@ class C17:
         worlds = [build_world(es, loop_ref) for es in sc["envs"]]
         env_fp0 = [fp_env(w[0]) for w in worlds]
         removed = [[] for _ in worlds]     # tags the application has switched off, per environment
+        clock_moves = [0]                  # how often the wall clock was moved (forwards or backwards)
         rendered = []          # (env index, target key, data index, clock)
         in_flight = {}
         history = []
@@ -868,6 +869,7 @@ class C17:
                 bump(st, "reach.fp_checks")
             inv = loop.event("render.invoke")
             clock_at_invoke = CLOCK.us
+            moves_at_invoke = clock_moves[0]
             cancelled = False
             nfired0 = len(PLAN.fired)
             if op.get("fs_fault"):
@@ -934,7 +936,7 @@ class C17:
                 if dspec.get("fail_at") and got[1] == "ValueError":
                     bump(st, "fault.drop_failed")
             # oracle 3+4: history / interleaving independence
-            if clock_at_invoke != CLOCK.us and sens[e]:
+            if clock_moves[0] != moves_at_invoke and sens[e]:      # (a counter: +1 day then -1 day is a move too)
                 bump(st, "relaxed.clock_moved_during_render")   # another client advanced the clock mid-render
                 return
             if removed[e]:
@@ -954,6 +956,7 @@ class C17:
                 bump(st, "op." + k)
                 if k == "advance":
                     CLOCK.advance(op["us"])
+                    clock_moves[0] += 1
                     loop.event("clock.advance")
                 elif k == "customise":
                     # the application switches a tag off (documented: delete it from env.tags); from now
@@ -992,6 +995,7 @@ class C17:
                         continue
                     dspec = sc["datas"][op["data"]]
                     clock0 = CLOCK.us
+                    moves0 = clock_moves[0]
                     removed0 = list(removed[e])
                     nfb0 = len(PLAN.fired)
 
@@ -1002,7 +1006,7 @@ class C17:
                     outs = await asyncio.gather(*[loop.create_task(one(j), name="%s.b%d.%d" % (me, op["uid"], j))
                                                   for j in range(op["n"])])
                     bump(st, "reach.burst")
-                    if (clock0 != CLOCK.us and sens[e]) or removed[e] != removed0 or len(PLAN.fired) != nfb0:
+                    if (clock_moves[0] != moves0 and sens[e]) or removed[e] != removed0 or len(PLAN.fired) != nfb0:
                         continue      # the clock moved / the environment was re-configured / a storage fault armed
                         # by another caller landed while the burst was in flight
                     # all members rendered the same template with the same data: one probe, and they must agree
